@@ -144,6 +144,13 @@ CHECKS = {
                       'with the same item as find(); size()/empty() equal the number of present keys where an item counter is configured; EllenBinTree and BronsonAVLTreeMap check_consistency() (search-tree order, AVL balance, witness of the imbalanced node)',
         'level_note': 'trusted base as C13; split-order of SplitList traversal and the per-level ordering of skip-list towers are not inspected (would need protected members); trees without iterators are checked through check_consistency() and lookups only',
     },
+    'C20': {
+        'technique': 'runtime monitoring by model-based differential execution: single-threaded random call sequences on every container variant of the other harnesses, every result checked against the executable sequential reference model; ASan/UBSan/LSan',
+        'level_text': 'All 270 container variants of the C06-C11 and C13-C16 harnesses (queues, bounded queues, stacks, deque, priority queues; lists, hash sets, skip lists, trees, cuckoo/striped sets) are driven by one thread with seeded sequences of 1-200 calls '
+                      '(key spaces of 3 and 2000 keys, colliding hashes): return values incl. update\'s pair ((true,true) inserted / (true,false) updated / (false,false) absent and not allowed), observed item ids, functor call counts and the is-new flag, '
+                      'pop / extract_min / extract_max order, capacity behaviour, size()/empty()/traversal/check_consistency() after every sequence must equal the model; destroyed items are poisoned and LSan/ASan watch the destruction of every container',
+        'level_note': LIN_NOTE + '; sequences are sampled (3.7e5 per quick run), the exhaustive small-scope enumeration of the design is not implemented; disposer call counts are covered through item destructors (poison + LeakSanitizer), not through a counting disposer',
+    },
     'C21': {
         'technique': 'runtime monitoring: ownership ledger (owner word CAS on get, payload token of the last putter) and quiescent drain on real FreeList/TaggedFreeList/CachedFreeList under injected delays; ASan; TSan payload happens-before monitor',
         'level_text': 'Seeded runs of 2-4 threads over pools of 1-8 nodes (each thread holds 0-3 nodes, so the refcount-at-zero re-add and head-CAS-failure paths run constantly; contention is measured from library atomic-op counts): '
